@@ -5,7 +5,7 @@ obligation; everything else is 'UNCLASSIFIED'."""
 import ast
 
 from .model import walk_no_nested, Model
-from . import flow
+from . import flow, sem
 
 
 def _top(body):
@@ -238,9 +238,9 @@ def classify_while(loop, f, model, cg, sentinel_ok=None):
                  and isinstance(s.targets[0], ast.Name)]
         for fl in flags:
             flag = fl.targets[0].id
-            exits = [s for s in top if isinstance(s, ast.If) and isinstance(s.test, ast.UnaryOp) and isinstance(s.test.op, ast.Not)
-                     and isinstance(s.test.operand, ast.Name) and s.test.operand.id == flag
-                     and any(isinstance(b, ast.Break) for b in s.body)]
+            # `if not flag: break`, also as one disjunct of a merged exit test (`if out_of_data or not flag: break`)
+            exits = [s for s in top if isinstance(s, ast.If) and any(isinstance(b, (ast.Break, ast.Return)) for b in s.body)
+                     and [(flag, False)] in sem.dnf(sem.cond_formula(s.test))]
             if not exits:
                 continue
             sets = [a for a in assigned.get(flag, []) if a is not fl]
